@@ -208,3 +208,10 @@ v("c20-schema-errors-after-parse", "C20", "SCHEMA-ERRORS-FIRST", "src/graphql/gr
   "    if assume_valid_schema := False:\n        return ExecutionResult(data=None, errors=[])\n")
 v("c20-validate-types-no-enum", "C20", "DISPATCH-EXH", T + "validate.py",
   "            elif is_enum_type(type_):\n                # Ensure Enums have valid values.\n                self.validate_enum_values(type_)\n", "")
+
+# -- late additions -------------------------------------------------------------------------------
+v("c20-unfix-root-ast-node", "C20", "KIND-ATTR", T + "validate.py",
+  'or getattr(root_type, "ast_node", None),', "or root_type.ast_node,")
+v("c11-unfix-edit-sentinel", "C11", "EDIT-SENTINEL", L + "visitor.py",
+  "                    values = {k: getattr(node, k) for k in node.keys}\n                    for edit_key, edit_value in edits:\n                        values[edit_key] = (\n                            None\n                            if edit_value is REMOVE or edit_value is Ellipsis\n                            else edit_value\n                        )\n",
+  "                    values = {k: getattr(node, k) for k in node.keys} | dict(edits)\n")
